@@ -46,6 +46,7 @@ RULE = ('suite: the repository\'s own test suite with receiver and '
 RULE += (' Queries also run on receivers written to disk and reopened (a file that cannot be read after the query is a violation); interpSigma also with a model top of its own; programs on IOAPI files whose TFLAG was supplied by the caller.')
 RULE += (" Every eighth program and every fifth query starts from the object one of the library's READERS returns for a valid image written by the independent codecs (all CAMx memory-mapped and record readers, bpch1, bpch2, arlpackedbit, ffi1001); the gridded, boundary, land-use and bpch1 memory maps are opened for update (mode='r+') in half of those programs, so that anything sharing the map could change the receiver.")
 RULE += (' What a query returns is written into and the query repeated: the second answer must equal the first (no hidden state shared with the answer). After a program on a receiver opened from disk the source is closed: the files derived from it must be unchanged.')
+RULE += (' One receiver from disk in three (plain files) is written with netCDF4 directly, as other tools write archive files: float data variables packed (int16 with scale_factor/add_offset), masks as _FillValue; the oracle snapshots what the opened file delivers.')
 ASSUMPTIONS = [
     'getVarlist() with its default update=True is a documented mutator and '
     'is not treated as a query',
@@ -275,7 +276,7 @@ def run_program_in(spec, res, d, h):
         f = gen_core.build(spec['file']['core'])
     if spec.get('disk') and not rdr:
         # the receiver is a file on disk (saved, opened again)
-        g = harness.to_disk(f, d, h, fmt='ioapi' if 'ioapi' in spec['file']
+        g = harness.to_disk(f, d, h, res=res, foreign=True, fmt='ioapi' if 'ioapi' in spec['file']
                             else 'netcdf')
         if g is not None:
             f = g
@@ -486,7 +487,7 @@ def run_query_in(spec, res, d, h):
         f = build_query_file(spec)
     if spec.get('disk'):
         # the receiver is a file on disk (saved, opened again)
-        g = harness.to_disk(f, d, h, fmt='ioapi' if spec['kind'].startswith(
+        g = harness.to_disk(f, d, h, res=res, foreign=True, fmt='ioapi' if spec['kind'].startswith(
             'ioapi') else 'netcdf')
         if g is not None:
             f = g
